@@ -12,3 +12,16 @@ func (v *vc) smtSubset(ob *obligation) string {
 	cut := len(relaxed) - len("(assert true)\n(check-sat)\n")
 	return relaxed[:cut] + "(assert (not " + saved + "))\n(check-sat)\n"
 }
+
+// failedBefore: some proof obligation generated before ob in the same function did not discharge.
+func failedBefore(v *vc, ob *obligation) bool {
+	for _, o := range v.obls {
+		if o.pos >= ob.pos {
+			break
+		}
+		if !o.cover && o.status != "" && o.status != "unsat" {
+			return true
+		}
+	}
+	return false
+}
